@@ -5,7 +5,7 @@ from values import Ptr
 
 PROP = 'C04'
 R = z3.RealSort()
-LOG = z3.Function('log', R, R)
+LOG = z3.Function('libm.log', R, R)
 
 
 def ctype(C, view):
@@ -151,7 +151,7 @@ def post_iteration(C):
 
 
 # ---- V7: initial pressure (solver constructor, body of the loop over the population) -------------------------------
-EXP = z3.Function('exp', R, R)
+EXP = z3.Function('libm.exp', R, R)
 
 
 def post_initial_pressure(C):
